@@ -201,4 +201,20 @@ EntityCount(f, st) ==
       [] f = "frequencies.txt" -> FoldL(LAMBDA n, t : n + Len(t.freqs), 0, st.trips)
       [] f = "shapes.txt" -> Len(st.shapeRows)
       [] OTHER -> 0
+(* the rows of each file that produce an entity according to the model: one pass over the feed, row by row, *)
+(* comparing the entity count before and after each row step (the counterpart of the static.accept hook)   *)
+ModelAccepted(feed, inherit) ==
+    LET FileStep(acc, f) ==
+          LET rows == RowsOf(feed, f)
+              Took(before, after, row) ==
+                  CASE f = "calendar.txt" -> ValidCalendarRow(row)          \* the services map may be overwritten with an equal value
+                    [] f = "calendar_dates.txt" -> ValidExceptionRow(row)
+                    [] OTHER -> EntityCount(f, after) > EntityCount(f, before)
+              RowAcc(a, i) == LET nx == RowStep(f, a.st, rows[i], i) IN
+                              [st |-> nx, rows |-> IF Took(a.st, nx, rows[i]) THEN Append(a.rows, i) ELSE a.rows]
+              done == IF MissingCols(feed, f) # {} THEN [st |-> acc.st, rows |-> <<>>]
+                      ELSE FoldL(RowAcc, [st |-> acc.st, rows |-> <<>>], [i \in DOMAIN rows |-> i])
+          IN [st |-> ParseFile(acc.st, feed, f, inherit), acc |-> Put(acc.acc, f, done.rows)]
+    IN FoldL(FileStep, [st |-> EmptySt, acc |-> <<>>], Files).acc
+
 =============================================================================
